@@ -82,6 +82,7 @@ PROPS["C07"] = dict(
 
 PROPS["C05"] = dict(
     theorem_file="Properties/C05.v",
+    needs_csvq=True,
     kinds={1: ("dml-mismatch", "after some statement of the history the reported count or the table (SELECT *) differs from Model.Dml.exec", True),
            2: ("dml-frame", "the implementation's own observations break the frame condition (a failed statement changed the table; INSERT/DELETE row counts do not move by the reported number; old rows not kept in place)", True),
            4: ("oracle-wf", "string oracle inconsistent with the modelled parsers", True),
